@@ -342,6 +342,25 @@ func (e *Env) Exec(line string) string {
 			// real staking hooks (module/x/mhub2/keeper/hooks.go), exactly where the sdk calls them
 			r := e.runTx(func(ctx sdk.Context) (string, error) {
 				hk := e.k.Hooks()
+				now := map[string]bool{}
+				for _, v := range e.staking.vals {
+					now[string(v.addr)] = true
+				}
+				var goneKeys []string
+				for k := range old {
+					if !now[k] {
+						goneKeys = append(goneKeys, k)
+					}
+				}
+				sort.Strings(goneKeys)
+				for _, k := range goneKeys {
+					// a validator that left the staking module altogether (all delegations gone, unbonding complete)
+					o := old[k]
+					if o.bonded {
+						hk.AfterValidatorBeginUnbonding(ctx, sdk.ConsAddress(o.addr), o.addr)
+					}
+					hk.AfterValidatorRemoved(ctx, sdk.ConsAddress(o.addr), o.addr)
+				}
 				for _, v := range e.staking.vals {
 					o, known := old[string(v.addr)]
 					cons := sdk.ConsAddress(v.addr)
